@@ -35,7 +35,7 @@ def collect(m, inst):
         if members:
             f = min(members, key=lambda s: (s.LineNumber, s.StartPosition))
             first_of_block[blk.Block_ID] = pos(f)
-    stmts, subs = [], []
+    stmts, subs, rawkw = [], [], []
     for s in smts:
         st = subtypes(s, 'R603')
         subs.append(len(st))
@@ -44,14 +44,29 @@ def collect(m, inst):
         prev_id = s.Previous_Statement_ID
         prev = by_id.get(prev_id) if prev_id else None
         blk = one(s).ACT_BLK[602]()
-        stmts.append({'k': KIND.get(st[0], st[0]) if st else '?', 'line': s.LineNumber, 'sc': s.StartPosition, 'ec': s.EndPosition,
+        tag = ''
+        if st and st[0] in ('ACT_FIO', 'ACT_FIW', 'ACT_SEL'):
+            sub = one(s).nav(st[0], 'R603', '')()
+            raw = str(getattr(sub, 'cardinality', ''))
+            tag = raw.lower()
+            rawkw.append([raw, tag])
+        stmts.append({'k': KIND.get(st[0], st[0]) if st else '?', 'tag': tag, 'line': s.LineNumber, 'sc': s.StartPosition, 'ec': s.EndPosition,
                       'prev': pos(prev) if prev is not None else [], 'first': first_of_block.get(blk.Block_ID, []) if blk else []})
     vals = []
     for v in m.select_many('V_VAL'):
         st = subtypes(v, 'R801')
         subs.append(len(st))
         dt = one(v).S_DT[820]()
-        vals.append({'line': v.LineNumber, 'sc': v.StartPosition, 'ec': v.EndPosition, 'ty': dt.Name if dt else ''})
+        lit = ''
+        if st and st[0] in ('V_BIN', 'V_UNY'):
+            raw = str(one(v).nav(st[0], 'R801', '')().Operator)
+            lit = raw.lower()
+            rawkw.append([raw, lit])
+        elif st and st[0] == 'V_LBO':
+            raw = str(one(v).V_LBO[801]().Value)
+            lit = raw.upper()
+            rawkw.append([raw, lit])
+        vals.append({'line': v.LineNumber, 'sc': v.StartPosition, 'ec': v.EndPosition, 'ty': dt.Name if dt else '', 'lit': lit})
     vars_ = []
     for v in m.select_many('V_VAR'):
         dt = one(v).S_DT[848]()
@@ -62,4 +77,4 @@ def collect(m, inst):
     for p in m.select_many('V_PAR'):
         nxt = by_val.get(p.Next_Value_ID) if p.Next_Value_ID else None
         pairs.append([p.Name, nxt.Name if nxt is not None else ''])
-    return {'stmts': stmts, 'vals': vals, 'vars': vars_, 'ppairs': pairs, 'subtype_counts': subs}
+    return {'stmts': stmts, 'vals': vals, 'vars': vars_, 'ppairs': pairs, 'subtype_counts': subs, 'rawkw': rawkw}
